@@ -28,7 +28,70 @@ pub enum Step {
     /// Settle, send a take/drop to a map lane, settle (so that the oracle knows the state before).
     TakeDrop { remote: usize, lane: u32, take: bool, n: u64 },
     StopAgent,
+    /// (fault part of C14 only) Drop the reading half of the command channel currently open for a
+    /// channel key (index into `FaultPlan::keys`): the runtime's next write to it fails.
+    CloseTargetReader(usize),
+    /// (fault part of C14 only) Let this much virtual time (ms) pass with no activity, then settle.
+    Idle(u64),
 }
+
+/// How the harness answers one request of the runtime to open a command channel.
+#[derive(Clone, Copy, Debug, PartialEq, Eq)]
+pub enum OpenAnswer {
+    Ok,
+    /// An error that is not fatal (`Recoverable::is_fatal() == false`): the runtime may retry.
+    Transient,
+    /// A fatal error: the runtime gives the channel up.
+    Fatal,
+    /// The request is dropped unanswered.
+    DropPromise,
+}
+
+/// `AgentRuntimeConfig::command_output_retry` of a fault case.
+#[derive(Clone, Copy, Debug, PartialEq, Eq)]
+pub enum RetrySpec {
+    None,
+    Immediate(usize),
+    /// (delay in ms, retries)
+    Interval(u64, usize),
+}
+
+impl RetrySpec {
+    pub fn retries(&self) -> usize {
+        match self {
+            RetrySpec::None => 0,
+            RetrySpec::Immediate(n) | RetrySpec::Interval(_, n) => *n,
+        }
+    }
+}
+
+/// What goes wrong with the command channels of one case (C14, part `agent-command-fault-conversations`).
+#[derive(Clone, Debug)]
+pub struct FaultPlan {
+    /// One entry per channel key the targets resolve to: a string that occurs in the `Debug` form
+    /// of that `CommanderKey` and of no other.
+    pub keys: Vec<String>,
+    /// Channel key of every command target.
+    pub target_keys: Vec<usize>,
+    /// Per key: the answers to its successive open requests (after the list is used up: `Ok`).
+    pub answers: Vec<Vec<OpenAnswer>>,
+    pub retry: RetrySpec,
+    /// `AgentRuntimeConfig::command_output_timeout` in ms.
+    pub timeout_ms: u64,
+}
+
+/// Targets of the fault part: two lanes behind host a (one channel), one behind host b, two local ones.
+pub fn fault_targets() -> Vec<(Option<String>, String, String)> {
+    vec![
+        (Some("ws://hosta:9001".to_string()), "/t0".to_string(), "in".to_string()),
+        (Some("ws://hosta:9001".to_string()), "/t1".to_string(), "in".to_string()),
+        (None, "/t2".to_string(), "in".to_string()),
+        (Some("ws://hostb:9002".to_string()), "/t3".to_string(), "in".to_string()),
+        (None, "/t4".to_string(), "in".to_string()),
+    ]
+}
+
+pub const FAULT_TIMEOUT_MS: u64 = 60_000;
 
 #[derive(Clone, Debug)]
 pub struct Config {
@@ -341,6 +404,128 @@ impl<'a> Gen<'a> {
                 Step::Command(r, CMD.to_string(), self.cmd_body(acts).1)
             }
         }
+    }
+
+    /// Fault plan of one case: one or two of the four channel keys misbehave, the others never do
+    /// (so that "other targets are unaffected" is judged in every case).
+    pub fn fault_plan(&mut self) -> FaultPlan {
+        let keys: Vec<String> = ["\"hosta\"", "\"hostb\"", "\"/t2\"", "\"/t4\""].iter().map(|s| s.to_string()).collect();
+        let target_keys = vec![0, 0, 2, 1, 3];
+        let retry = match self.rng.below(6) {
+            0 => RetrySpec::None,
+            1 | 2 => RetrySpec::Immediate(self.rng.range(1, 3) as usize),
+            3 | 4 => RetrySpec::Interval(*self.rng.pick(&[5u64, 400, 3_000]), self.rng.range(1, 3) as usize),
+            _ => RetrySpec::Interval(3_000, 1),
+        };
+        let mut answers: Vec<Vec<OpenAnswer>> = vec![vec![]; keys.len()];
+        let faulty = self.rng.range(1, 2) as usize;
+        for _ in 0..faulty {
+            let k = self.rng.usize_below(keys.len());
+            if !answers[k].is_empty() {
+                continue;
+            }
+            let rounds = self.rng.range(1, 3);
+            for _ in 0..rounds {
+                match self.rng.below(10) {
+                    // transient errors, then success (when within the retry budget) or exhaustion
+                    0..=4 => {
+                        let m = self.rng.range(1, retry.retries() as u64 + 1);
+                        for _ in 0..m {
+                            answers[k].push(OpenAnswer::Transient);
+                        }
+                        answers[k].push(OpenAnswer::Ok);
+                    }
+                    5 | 6 => answers[k].push(OpenAnswer::Fatal),
+                    7 => answers[k].push(OpenAnswer::DropPromise),
+                    _ => answers[k].push(OpenAnswer::Ok),
+                }
+            }
+        }
+        FaultPlan { keys, target_keys, answers, retry, timeout_ms: FAULT_TIMEOUT_MS }
+    }
+
+    /// A command (from remote `r`) whose handler sends `n` commands to one target.
+    fn send_burst(&mut self, r: usize, target: u32, n: u64, mode: Option<u32>) -> Step {
+        let mut acts = vec![];
+        for _ in 0..n {
+            self.next_send += *self.rng.pick(&[1u64, 1, 2, 7, 85, 900]);
+            let mode = mode.unwrap_or_else(|| *self.rng.pick(&[0u32, 1, 2, 2]));
+            acts.push(Act::Send { target, v: self.next_send, mode });
+        }
+        Step::Command(r, CMD.to_string(), self.cmd_body(acts).1)
+    }
+
+    /// Script of the fault part: a `Focus::Commands` conversation over five targets into which
+    /// reader closures, idle periods and three directed scenarios are inserted.
+    pub fn fault_script(&mut self, cfg: &Config, len: usize, plan: &FaultPlan) -> Vec<Step> {
+        self.targets = plan.target_keys.len();
+        let base = self.script(Focus::Commands, cfg, len);
+        let nk = plan.keys.len();
+        let mut steps = vec![];
+        for (i, st) in base.into_iter().enumerate() {
+            steps.push(st);
+            if i == 0 {
+                continue; // the first attach stays first
+            }
+            let roll = self.rng.below(1000);
+            if roll < 50 {
+                steps.push(Step::CloseTargetReader(self.rng.usize_below(nk)));
+            } else if roll < 100 {
+                let ms = match self.rng.below(20) {
+                    0..=9 => plan.timeout_ms + 1_000,
+                    10..=12 => plan.timeout_ms - 1_000,
+                    13..=17 => 4_000,
+                    _ => 2 * plan.timeout_ms,
+                };
+                steps.push(Step::Idle(ms));
+            } else if roll < 140 {
+                // directed: a burst queues up behind a stalled target, whose reader is then closed
+                let target = self.rng.below(self.targets as u64) as u32;
+                let key = plan.target_keys[target as usize];
+                steps.push(self.send_burst(0, target, 1, None));
+                steps.push(Step::Settle);
+                steps.push(Step::StallTargets(true));
+                let n = self.rng.range(2, 10);
+                steps.push(self.send_burst(0, target, n, Some(2)));
+                if self.rng.bool() {
+                    steps.push(Step::Settle);
+                }
+                steps.push(Step::CloseTargetReader(key));
+                if self.rng.bool() {
+                    let n = self.rng.range(1, 4);
+                    steps.push(self.send_burst(0, target, n, None));
+                }
+                steps.push(Step::StallTargets(false));
+                steps.push(Step::Settle);
+                let n = self.rng.range(1, 4);
+                steps.push(self.send_burst(0, target, n, None));
+                steps.push(Step::Settle);
+                let n = self.rng.range(1, 4);
+                steps.push(self.send_burst(0, target, n, None));
+            } else if roll < 180 {
+                // directed: use a target, leave it idle beyond the time-out, use it again
+                let target = self.rng.below(self.targets as u64) as u32;
+                let n = self.rng.range(1, 4);
+                steps.push(self.send_burst(0, target, n, None));
+                if self.rng.chance(1, 4) {
+                    steps.push(Step::StallTargets(true));
+                }
+                steps.push(Step::Idle(plan.timeout_ms + *self.rng.pick(&[0u64, 1, 1_000, 30_000])));
+                let n = self.rng.range(1, 6);
+                steps.push(self.send_burst(0, target, n, None));
+                steps.push(Step::StallTargets(false));
+                steps.push(Step::Settle);
+            } else if roll < 210 {
+                // directed: commands pile up while the channel is (re)tried, some time passes
+                let target = self.rng.below(self.targets as u64) as u32;
+                let n = self.rng.range(1, 5);
+                steps.push(self.send_burst(0, target, n, None));
+                steps.push(Step::Idle(*self.rng.pick(&[1u64, 5, 400, 3_000, 7_000])));
+                let n = self.rng.range(1, 5);
+                steps.push(self.send_burst(0, target, n, None));
+            }
+        }
+        steps
     }
 
     pub fn script(&mut self, focus: Focus, cfg: &Config, len: usize) -> Vec<Step> {
